@@ -26,6 +26,7 @@ RULE = (
     "exclusion zone (max|I/tau| < 1e-9) are removed from the texture (C03 covers them). "
     "Non-trivial grain evaluation: >= 2 slip systems with non-zero relative slip rate and a "
     "non-zero strain rate; distinct = distinct (case key)."
+    " Plus fabric x regime x the 12 whole-number straining gradients x cube rotations x one-grain-holds-all volumes with the inputs typed int64: bit-identical to the float64 call."
 )
 ASSUMPTIONS = [
     "reference model ref/drex_ref.py restates Kaminski & Ribe 2001 / Kaminski et al. 2004 / Fraters & Billen 2021 in tensor form (trusted, ~60 lines)",
@@ -64,6 +65,9 @@ def ALPHABETS():
 
 def warmup():
     R.warm()
+    from props import c03
+
+    c03.warmup()  # compiles the integer-typed signatures
 
 
 def gen_cases(tier, seed):
@@ -85,6 +89,14 @@ def gen_cases(tier, seed):
     for fab, reg in itertools.product(alph.FABRICS, alph.DISL):
         for vg in CORE_VG:
             keys.append(dict(mode="jit", fab=fab, reg=reg, vg=vg, vol="dominant", prm="FULL", set="core"))
+    # whole-number inputs typed int64 are the same inputs (the float64 call is checked against
+    # the reference above; the int64-typed calls must reproduce it bit for bit); seed C02f
+    from props import c03
+
+    for fab, reg in itertools.product(alph.FABRICS, alph.DISL):
+        for vg in c03.WHOLE_VGS:
+            if not vg.startswith("rigid"):
+                keys.append(dict(mode="dtype", part="dtype", fab=fab, reg=reg, vg=vg))
     return keys
 
 
@@ -160,6 +172,10 @@ def compare(res, key, names, A, f, D, L, prm, rg, ph, fb, extra=None):
 
 
 def run_case(key):
+    if key["mode"] == "dtype":
+        from props import c03
+
+        return c03.run_dtype(key)
     if key["mode"] == "interp":
         return run_interp(key)
     res = empty_result()
